@@ -3,8 +3,8 @@
 // Contracts for deductive verification (read by /verif/govc). Comment-only: this file adds no code.
 package keeper
 
-//@ store Shard      kv=order/Shard/value/ key=be64 val=github.com/SaoNetwork/sao/x/order/types.Shard
-//@ store Order      kv=order/Order/value/ key=be64 val=github.com/SaoNetwork/sao/x/order/types.Order
+//@ store Shard      kv=order/Shard/value/ key=be64 val=github.com/SaoNetwork/sao/x/order/types.Shard keyfield=Id
+//@ store Order      kv=order/Order/value/ key=be64 val=github.com/SaoNetwork/sao/x/order/types.Order keyfield=Id
 //@ store ShardCount kv=order/ key=str:Shard/count/ raw
 //@ store OrderCount kv=order/ key=str:Order/count/ raw
 
